@@ -789,6 +789,14 @@ def run_scenario(scn, chooser, *, max_steps=200000):
             if scn.get('second_env') == 'fresh':
                 env = initial_env(scn, mods)
                 holder['env'] = env
+            if scn.get('defaults') and not scn.get('init_env') and \
+                    'edges2' not in scn:
+                # asked again, still without an environment: a new one
+                sim.mark('schedule-call')
+                got = sched.schedule()
+                env = got
+                holder['env'] = env
+                continue
             if 'edges2' in scn:
                 # a new Scheduler on the SAME backend object, same tasks,
                 # graphs with additional edges
